@@ -23,6 +23,7 @@ Explain(e) ==
          [] e.act = "R" -> Read(e.r)
          [] e.act = "W" -> Write(e.r)
          [] e.act = "U" -> Unlock(e.r)
+         [] e.act = "G" -> SaveReq(e.r)
          [] OTHER -> FALSE
     /\ lock' = e.lock /\ clock' = e.clock
 
